@@ -510,8 +510,18 @@ def run(ctx):
                  % (list(STATUSES), LOOP_TIMEOUTS, ANY_TIMEOUTS))
     c19._setup()
     cases = gen_cases(ctx)
-    with Loopback() as loop:
-        run_cases(ctx, cases, loop)
+    try:
+        lb = Loopback().__enter__()
+    except OSError as e:
+        # no loopback socket in this sandbox: the stubbed-opener half still runs, the wire half is skipped and said so
+        lb = None
+        ctx.extra['loopback_unavailable'] = '%s: %s' % (type(e).__name__, e)
+        cases = [c for c in cases if c.get('mode') != 'loop']
+    try:
+        run_cases(ctx, cases, lb)
+    finally:
+        if lb is not None:
+            lb.__exit__(None, None, None)
     function_level(ctx)
     ctx.extra['redirect_table'] = {
         'observed through passthrough_redirect_handler on the loopback server': dict(sorted(ctx.extra.pop('_redir', {}).items())),
